@@ -2,7 +2,7 @@
    Registers equal Spec/Arch, for every machine state. *)
 From Coq Require Import ZArith List Bool Lia ZifyBool.
 From ArmV Require Import Lib.PyZ Lib.Monad Lib.Machine Spec.Pseudocode Spec.Expected Spec.Arch
-  Proofs.BitLemmas Proofs.BitsOps Proofs.BitsOps2 Proofs.ShiftOps Proofs.FieldsProofs Proofs.StateLemmas.
+  Proofs.BitLemmas Proofs.SpecFacts Proofs.BitsOps Proofs.BitsOps2 Proofs.ShiftOps Proofs.FieldsProofs Proofs.StateLemmas.
 From Gen Require Import enums bits_ops shift regviews records hubm opsyn core.
 Import ListNotations.
 Open Scope Z_scope.
